@@ -491,6 +491,19 @@ def gen_life_case(rng, lazy_mode=None, reopen=None, fi=None, mode=None):
         st.append({"k": "trade", "plan": when})
         spec["life"]["reopened"] = s
     st.append({"k": "eod"})
+    if not spec["integer"] and mode == "scripted" and rng.random() < 0.3:
+        # a book kept in very large units (billions of notional per unit, satoshi-sized lots): every quantity is of the order of 1e-9 -
+        # far above the engine's own zero tolerance (1e-16), so these are trades, closes and rolls like any other
+        for a in st:
+            if a["k"] == "trade_selected":
+                for day in a["plan"].values():
+                    for nm in day:
+                        day[nm] = day[nm] * 1e-9
+            elif a["k"] == "trade":
+                for ops_ in a["plan"].values():
+                    for o_ in ops_:
+                        o_[2] = o_[2] * 1e-9
+        spec["life"]["tiny_units"] = True
     return spec
 
 
